@@ -522,6 +522,36 @@ def check_case(ctx: Ctx, case, pending):
         pending.append((f"c07.pick {env.n_corr} {nres}", cb_pick))
         ctx.count(f"corr.n{env.n_corr}.res{nres}")
 
+        # the configured corrector: with corrector=None the optimizer builds FastTriggs(kernel_i) (or the identity when
+        # there is no kernel) — its output must be sqrt(rho_i'(|R_item|^2)) · (R, J) for the i-th *configured* kernel
+        if case["corrector"] is None:
+            for i in range(nres):
+                kspec = case["kernel"]
+                if isinstance(kspec, list):
+                    kspec = kspec[0] if len(kspec) == 1 else (kspec[i] if i < len(kspec) else None)
+                c_ = env.corr_log[i]
+                R64, J64 = c_["R"].double(), c_["J"].double()
+                if kspec is None:
+                    sR, sJ = R64, J64
+                else:
+                    kern = build_kernel(kspec)
+                    x = (R64 * R64).sum(-1, keepdim=True) if R64.dim() else (R64 * R64).reshape(1)
+                    xg = x.detach().clone().requires_grad_(True)
+                    with torch.enable_grad():
+                        g1 = torch.autograd.grad(kern(xg).sum(), xg)[0]
+                    sc_ = g1.sqrt()
+                    sR = sc_ * R64
+                    sJ = sc_.expand_as(R64).reshape(-1, 1) * J64
+                tolc = 1e-4 if f32 else 1e-9
+                e1 = float((c_["Rc"].double() - sR).abs().max()) if sR.numel() else 0.0
+                e2 = float((c_["Jc"].double() - sJ).abs().max()) if sJ.numel() else 0.0
+                lim1 = tolc * max(1.0, float(sR.abs().max()) if sR.numel() else 0.0)
+                lim2 = tolc * max(1.0, float(sJ.abs().max()) if sJ.numel() else 0.0)
+                if not (e1 <= lim1 and e2 <= lim2):    # NaN counts as failure
+                    ctx.fail(cd, f"corrector: with corrector=None residual {i} must be corrected by FastTriggs of its own configured kernel "
+                                 f"({kspec}): R' error {e1:.3e}, J' error {e2:.3e} ({tag})")
+                    ok = False
+            ctx.count("corr.auto-checked")
         ncols = int(env.corr_log[0]["J"].shape[1])
         jac_params = [i for i, r in enumerate(env.rg) if r]
         if ncols != sum(numels[i] for i in jac_params):
@@ -842,7 +872,10 @@ def run_wdiag(ctx: Ctx, pending, configs):
         Rs, Ws = [], []
         for rs, ws in zip(cfg["rshapes"], cfg["wshapes"]):
             Rs.append(torch.randn(rs, generator=g, dtype=torch.float64))
-            Ws.append(torch.randint(-8, 9, ws, generator=g).to(torch.float64) if len(ws) else torch.tensor(2.0, dtype=torch.float64))
+            w_ = torch.randint(-8, 9, ws, generator=g).to(torch.float64) if len(ws) else torch.tensor(2.0, dtype=torch.float64)
+            if len(ws) >= 2 and ws[-1] == ws[-2]:
+                w_ = w_ + w_.transpose(-1, -2)       # the property quantifies over symmetric (SPD) weights
+            Ws.append(w_.contiguous())
         ncol = 2
         Js = [torch.randn(int(math.prod(rs)), ncol, generator=g, dtype=torch.float64) for rs in cfg["rshapes"]]
         case = {"kind": "wdiag", **cfg}
@@ -872,22 +905,21 @@ def run_wdiag(ctx: Ctx, pending, configs):
                                    f"does not apply W_i to residual item i")
 
         def cb(rep, impl=impl, case=case):
+            # a weight is usable by the step only if it is tot x tot (otherwise `weight @ J` raises): an unusable weight on
+            # one side must be unusable (or a raise) on the other side; usable ones must be equal entry by entry
             st, toks = common.parse_reply(rep)
-            if isinstance(impl, Exception):
-                if st == "ok":
-                    r, c = int(toks[0]), int(toks[1])
-                    # the code may also fail later (shape mismatch in `weight @ J`): only report when the model's matrix is usable
-                    tot = sum(int(math.prod(rs)) for rs in case["rshapes"])
-                    if r == tot and c == tot:
-                        ctx.disagree("wdiag", case, f"implementation raises ({type(impl).__name__}: {str(impl)[:80]}) but the model builds a {r}x{c} weight")
+            tot = sum(int(math.prod(rs)) for rs in case["rshapes"])
+            m_ok = st == "ok" and int(toks[0]) == tot and int(toks[1]) == tot
+            i_ok = (not isinstance(impl, Exception)) and list(impl.shape) == [tot, tot]
+            if not m_ok and not i_ok:
                 return
-            if st != "ok":
-                ctx.disagree("wdiag", case, f"model raises, implementation returns a weight of shape {list(impl.shape)}")
+            if m_ok != i_ok:
+                ctx.disagree("wdiag", case, f"usable weight on one side only: model {'ok' if m_ok else 'raises/unusable'}, implementation "
+                                            f"{'ok' if i_ok else (type(impl).__name__ if isinstance(impl, Exception) else list(impl.shape))}")
                 return
-            r, c = int(toks[0]), int(toks[1])
-            vals = torch.tensor([float(common.from_wire(t)) for t in toks[2:]], dtype=torch.float64).reshape(r, c)
-            if [r, c] != list(impl.shape) or not torch.equal(vals, impl.double()):
-                ctx.disagree("wdiag", case, f"block-diagonal weight differs from the model (model {r}x{c}, implementation {list(impl.shape)})")
+            vals = torch.tensor([float(common.from_wire(t)) for t in toks[2:]], dtype=torch.float64).reshape(tot, tot)
+            if not torch.equal(vals, impl.double()):
+                ctx.disagree("wdiag", case, f"block-diagonal weight differs from the model ({tot}x{tot})")
         pending.append((line, cb))
 
 
@@ -1027,7 +1059,7 @@ def make_case(rng, **force):
             if tmode == "mixed" and rng.random() < 0.4:
                 tg.append(None)
                 continue
-            sc = force.get("tscale", rng.choice([0.0, 1e-12, 1e-9, 1e-6, 1e-3, 0.1, 0.1, 1.0, 1.0]))
+            sc = force.get("tscale", rng.choice([0.0, 1e-18, 1e-15, 1e-12, 1e-9, 1e-6, 1e-3, 0.1, 0.1, 1.0, 1.0]))
             noise = torch.tensor([rng.gauss(0, 1) for _ in range(o.numel())], dtype=torch.float64).reshape(o.shape)
             t = (o.double() + sc * noise).to(U.dt(dtype)).to(torch.float64)
             tg.append({"shape": list(o.shape), "values": t.reshape(-1).tolist()})
@@ -1069,8 +1101,11 @@ def make_case(rng, **force):
         case["corrector"] = {"type": "FastTriggs" if kmode == "fast" else "Triggs", "kernel": kk}
     else:
         ks = [rand_kernel(rng) if rng.random() < 0.75 else None for _ in roots]
+        if force.get("auto_list"):      # distinct kernels, correctors built by the optimizer
+            names = rng.sample(KERNELS, len(roots))
+            ks = [{"name": n_, "args": list(a_)} for n_, a_ in names]
         case["kernel"] = ks
-        c = rng.random()
+        c = 0.0 if force.get("auto_list") else rng.random()
         if c < 0.35:
             case["corrector"] = None
         elif c < 0.7:
@@ -1156,6 +1191,20 @@ def corner_cases():
     # two residuals, two correctors
     for _ in range(4):
         out.append(make_case(rng, nres=2, kmode="list", nparams=2))
+    for opt in ("GN", "LM"):
+        out.append(make_case(rng, opt=opt, nres=2, kmode="list", auto_list=True, nparams=2, dtype="float64", nbad=0))
+    # steps far below one ulp of 1 on parameters that are exactly zero / the identity (x + d = d must still be applied)
+    for opt in ("GN", "LM"):
+        for ts in (1e-18, 1e-15):
+            c = make_case(rng, opt=opt, ptypes=[["E", 3], ["A", "SE3"]], nres=2, depth=1, tscale=ts, target="near", dtype="float64",
+                          kmode="none", wmode="none", nbad=0, ncalls=1, bshape=[2])
+            for lf in c["leaves"]:
+                if lf["role"] == "param":
+                    lf["values"] = [[0.0] * len(v) for v in lf["values"]]
+            # targets were drawn around the old output: redraw them around the output at the zero parameters
+            outs = G.out_batch_dims(c)
+            c["targets"] = [{"shape": list(o.shape), "values": (o.double() + ts * torch.linspace(-1, 1, o.numel()).reshape(o.shape).double()).reshape(-1).tolist()} for o in outs]
+            out.append(c)
     # frozen parameter (known defect on the current tree)
     out.append(make_case(rng, opt="GN", ptypes=[["E", 3], ["G", "SE3"]], frozen=[True, False], dtype="float64"))
     out.append(make_case(rng, opt="LM", ptypes=[["G", "SO3"], ["A", "SE3"], ["S"]], frozen=[False, True, False], dtype="float64"))
@@ -1203,7 +1252,7 @@ def run(ctx: Ctx):
     flush(ctx, pending)
     run_cases(ctx, corner_cases(), pending)
     flush(ctx, pending)
-    n = ctx.pick(90, 1500)
+    n = ctx.pick(110, 1500)
     run_cases(ctx, [make_case(rng) for _ in range(n)], pending)
     flush(ctx, pending)
 
